@@ -38,7 +38,9 @@ def match(known: list[dict], prop_id: str, fingerprint: str):
 
 
 def write_replay(home: str, prop_id: str, v: dict, transient: bool) -> str:
-    d = os.path.join(home, "replays", prop_id)
+    # VERIF_REPLAYS: where replay files go (tools/try_seed.sh points it at a scratch directory so that runs
+    # against seeded changes do not litter /verif/replays)
+    d = os.path.join(os.environ.get("VERIF_REPLAYS") or os.path.join(home, "replays"), prop_id)
     os.makedirs(d, exist_ok=True)
     name = hashlib.sha1(v["fingerprint"].encode()).hexdigest()[:12] + ".json"
     path = os.path.join(d, name)
